@@ -40,6 +40,8 @@ func runC18(c *Ctx, r *Report) {
 	defer c18r7(c, r)
 	defer c18r8(c, r)
 	defer c18r9(c, r)
+	defer c18r10(c, r)
+	defer c18r11(c, r)
 	hist := l.Named("fzf", "History")
 	fPath := l.Field("fzf", "History", "path")
 	fMod := l.Field("fzf", "History", "modified")
@@ -727,6 +729,8 @@ func runC19(c *Ctx, r *Report) {
 	c19r5(c, r)
 	c19r6(c, r)
 	c19r7(c, r)
+	c19r8(c, r)
+	c12r11(c, r) // the walker options survive the relaunch inside tmux word for word
 }
 
 // ------------------------------------------------------------------------------------------ C20
@@ -739,6 +743,7 @@ func runC20(c *Ctx, r *Report) {
 		c20r10(c, r)
 		c20r11(c, r)
 		c20r13(c, r)
+		c20r14(c, r)
 		c12r7(c, r) // whether a preview depends on the selection is the OR over its placeholders
 		c20r12(c, r)
 	}()
